@@ -181,7 +181,9 @@ def render_node_contract(prop, sfx, bound, replay_code):
         self = c.obj(RENDERNODE, "render", name=name_expr, var=var, loop=VBool(z3.BoolVal(bound == "array")), alias=c.str("alias"), args=c.st.alloc(HList(items=[arg])), token=NONE, tag=const("render"))
         c.requires(z3.Length(c.st.deref(self).fields["alias"].t) > 0, "an alias is given (otherwise the key is derived from the template name)")
         partial_ctx = mk_ctx(c, env, locals=c.dict("partial_locals"), counters=c.dict("partial_counters"), loops=c.st.alloc(HList(items=[])), loop_iteration_carry=c.int("partial_carry"))
-        evx = lambda eng, st, a, k: [(st, st.deref(a[0]).fields["__value__"])]  # noqa: E731
+        def evx(eng, st, a, k):
+            st.log.append(("evaluate", a[0], a[1] if len(a) > 1 else k.get("context")))
+            return [(st, st.deref(a[0]).fields["__value__"])]
         c.summary(EXP + ".evaluate", evx)
         c.summary(EXP + ".evaluate_async", evx)
         c.summary(ENV + ".get_template" + sfx, lambda eng, st, a, k: [(st, tmpl)])
@@ -233,6 +235,12 @@ def render_node_contract(prop, sfx, bound, replay_code):
             writes = [e for e in r.st.log if e[0] in ("setitem", "delitem", "setattr") and e[1] in caller_addrs]
             return z3.BoolVal(bool(ok_ns and ok_dis and ok_carry and ok_iso and ok_tmpl and ok_renders and not writes))
         c.ensures("the-partial-renders-in-an-isolated-copy(arguments+globals,include-disabled,product-carried)-and-the-caller-is-not-written", post)
+
+        def post_eval(r):
+            evals = [e for e in r.st.log if e[0] == "evaluate"]
+            want = 1 + (1 if val is not None else 0)   # the keyword argument and the bound variable (the name is a literal)
+            return z3.BoolVal(len(evals) >= want and all(e[2] == caller for e in evals))
+        c.ensures("the-tags-own-expressions(bound-variable,arguments)-are-evaluated-in-the-callers-context", post_eval)
         c.ensures("the-iteration-product-of-the-partial-context-is-restored", lambda r: measure(r.st) == carry)
         c.raises("LoopIterationLimitError", "TemplateNotFoundError", "ContextDepthError")
         if bound == "array":
